@@ -7,10 +7,13 @@ operations and `if` tests).  Recognised statement shapes:
   os.rename(A, B) / os.replace(A, B)                   -> rename A B
   os.remove(A) / os.unlink(A)                          -> remove A
   if C: ... else: ...                                  -> ite C ... ...
-  X = <path expr>                                      -> local alias
-  docstring / pass                                     -> skipped
+  X = <expr>                                           -> local alias (path, condition or string)
+  return                                               -> end of the (inlined) function
+  helper(...) defined in the same module               -> inlined (parameters bound symbolically, depth <= 4)
+  logger / logging / warnings calls, docstring, pass   -> skipped
 
-Path expressions: file_name, file_name + '.new', file_name + '.old' (or aliases of them).
+Path expressions: file_name, file_name + '.new', file_name + '.old', with the suffixes also as module-level string
+constants, through os.fspath/str, or aliases of them.
 Conditions: safely, overwrite, not/and/or, os.path.lexists/exists/isfile(P).
 
 Anything else is *unrecognised*: the emitted program is then the trivially unsafe
@@ -28,24 +31,9 @@ class Unrecognised(Exception):
 
 
 SUFFIX = {"": ".name", ".new": ".new", ".old": ".old"}
-
-
-def tr_path(e, env, fname):
-    if isinstance(e, ast.Name):
-        if e.id == fname:
-            return ".name"
-        if e.id in env:
-            return env[e.id]
-    if isinstance(e, ast.BinOp) and isinstance(e.op, ast.Add):
-        if isinstance(e.left, ast.Name) and e.left.id == fname and isinstance(e.right, ast.Constant):
-            if e.right.value in SUFFIX:
-                return SUFFIX[e.right.value]
-    if isinstance(e, ast.JoinedStr):  # f"{file_name}.new"
-        vals = e.values
-        if (len(vals) == 2 and isinstance(vals[0], ast.FormattedValue) and isinstance(vals[0].value, ast.Name)
-                and vals[0].value.id == fname and isinstance(vals[1], ast.Constant) and vals[1].value in SUFFIX):
-            return SUFFIX[vals[1].value]
-    raise Unrecognised("path expression " + ast.unparse(e))
+NOOP_CALL_PREFIXES = ("_logger.", "logger.", "logging.", "_log.", "log.", "warnings.")
+IDENTITY_CALLS = ("os.fspath", "str", "os.fsdecode")
+MAX_INLINE_DEPTH = 4
 
 
 def dotted(e):
@@ -57,23 +45,79 @@ def dotted(e):
     return None
 
 
-def tr_cond(e, env, fname):
-    if isinstance(e, ast.Name) and e.id in ("safely", "overwrite"):
-        return "." + e.id
-    if isinstance(e, ast.Constant) and e.value is True:
-        return ".tt"
+class Ctx:
+    """module-level knowledge: string constants and functions that may be inlined"""
+
+    def __init__(self, tree):
+        self.consts, self.funcs = {}, {}
+        for n in tree.body:
+            if isinstance(n, ast.Assign) and len(n.targets) == 1 and isinstance(n.targets[0], ast.Name) \
+                    and isinstance(n.value, ast.Constant) and isinstance(n.value.value, str):
+                self.consts[n.targets[0].id] = n.value.value
+            if isinstance(n, ast.AnnAssign) and isinstance(n.target, ast.Name) and isinstance(n.value, ast.Constant) \
+                    and isinstance(n.value.value, str):
+                self.consts[n.target.id] = n.value.value
+            if isinstance(n, ast.FunctionDef):
+                self.funcs[n.name] = n
+
+
+def ev(e, env, ctx):
+    """symbolic value of an expression: ("path", p) | ("cond", c) | ("str", s) | ("unknown", source)"""
+    if isinstance(e, ast.Name):
+        if e.id in env:
+            return env[e.id]
+        if e.id in ctx.consts:
+            return ("str", ctx.consts[e.id])
+        return ("unknown", e.id)
+    if isinstance(e, ast.Constant):
+        if isinstance(e.value, str):
+            return ("str", e.value)
+        if e.value is True:
+            return ("cond", ".tt")
+        if e.value is False:
+            return ("cond", "(.not .tt)")
+        return ("unknown", repr(e.value))
+    if isinstance(e, ast.BinOp) and isinstance(e.op, ast.Add):
+        a, b = ev(e.left, env, ctx), ev(e.right, env, ctx)
+        if a == ("path", ".name") and b[0] == "str" and b[1] in SUFFIX:
+            return ("path", SUFFIX[b[1]])
+        if a[0] == "str" and b[0] == "str":
+            return ("str", a[1] + b[1])
+        return ("unknown", ast.unparse(e))
+    if isinstance(e, ast.JoinedStr):  # f"{file_name}.new"
+        vals = e.values
+        if len(vals) == 2 and isinstance(vals[0], ast.FormattedValue) and ev(vals[0].value, env, ctx) == ("path", ".name") \
+                and isinstance(vals[1], ast.Constant) and vals[1].value in SUFFIX:
+            return ("path", SUFFIX[vals[1].value])
+        return ("unknown", ast.unparse(e))
     if isinstance(e, ast.UnaryOp) and isinstance(e.op, ast.Not):
-        return f"(.not {tr_cond(e.operand, env, fname)})"
+        v = ev(e.operand, env, ctx)
+        return ("cond", f"(.not {v[1]})") if v[0] == "cond" else ("unknown", ast.unparse(e))
     if isinstance(e, ast.BoolOp):
-        op = ".and" if isinstance(e.op, ast.And) else ".or"
-        parts = [tr_cond(v, env, fname) for v in e.values]
-        out = parts[-1]
-        for p in reversed(parts[:-1]):
-            out = f"({op} {p} {out})"
-        return out
-    if isinstance(e, ast.Call) and dotted(e.func) in ("os.path.lexists", "os.path.exists", "os.path.isfile"):
-        return f"(.pathExists {tr_path(e.args[0], env, fname)})"
-    raise Unrecognised("condition " + ast.unparse(e))
+        vals = [ev(v, env, ctx) for v in e.values]
+        if all(v[0] == "cond" for v in vals):
+            op = ".and" if isinstance(e.op, ast.And) else ".or"
+            out = vals[-1][1]
+            for v in reversed(vals[:-1]):
+                out = f"({op} {v[1]} {out})"
+            return ("cond", out)
+        return ("unknown", ast.unparse(e))
+    if isinstance(e, ast.Call):
+        f = dotted(e.func)
+        if f in IDENTITY_CALLS and len(e.args) == 1 and not e.keywords:
+            return ev(e.args[0], env, ctx)
+        if f in ("os.path.lexists", "os.path.exists", "os.path.isfile") and len(e.args) == 1:
+            v = ev(e.args[0], env, ctx)
+            if v[0] == "path":
+                return ("cond", f"(.pathExists {v[1]})")
+    return ("unknown", ast.unparse(e))
+
+
+def want(kind, e, env, ctx):
+    v = ev(e, env, ctx)
+    if v[0] != kind:
+        raise Unrecognised(f"{kind} expression {ast.unparse(e)}")
+    return v[1]
 
 
 def is_dump_body(body, fp):
@@ -84,47 +128,79 @@ def is_dump_body(body, fp):
         if f == "json.dump":
             if not any(isinstance(a, ast.Name) and a.id == fp for a in st.value.args):
                 return False
-        elif f == fp + ".write":
-            pass
+        elif f in (fp + ".write", fp + ".flush") or f == "os.fsync":
+            pass  # more chunks / pushing data towards the disk: no new file-system state in the model
         else:
             return False
     return True
 
 
-def tr_block(stmts, cont, env, fname):
+def bind_call(fn, call, env, ctx):
+    """environment of an inlined call: parameters bound to the symbolic values of the arguments"""
+    params = [a.arg for a in fn.args.args]
+    if fn.args.vararg or fn.args.kwarg or fn.args.posonlyargs or fn.args.kwonlyargs:
+        raise Unrecognised("signature of " + fn.name)
+    new = {}
+    defaults = dict(zip(params[len(params) - len(fn.args.defaults):], fn.args.defaults))
+    for name, a in zip(params, call.args):
+        new[name] = ev(a, env, ctx)
+    for kw in call.keywords:
+        if kw.arg is None or kw.arg not in params:
+            raise Unrecognised("call " + ast.unparse(call))
+        new[kw.arg] = ev(kw.value, env, ctx)
+    for name in params:
+        if name not in new:
+            if name not in defaults:
+                raise Unrecognised("call " + ast.unparse(call))
+            new[name] = ev(defaults[name], {}, ctx)
+    return new
+
+
+def tr_block(stmts, cont, env, ctx, ret, depth=0):
+    """cont: program run after this block; ret: program run after a `return`"""
     if not stmts:
         return cont
     st, rest = stmts[0], stmts[1:]
+    go = lambda e=env: tr_block(rest, cont, e, ctx, ret, depth)  # noqa: E731
     if isinstance(st, ast.Expr) and isinstance(st.value, ast.Constant):
-        return tr_block(rest, cont, env, fname)
+        return go()
     if isinstance(st, ast.Pass):
-        return tr_block(rest, cont, env, fname)
+        return go()
+    if isinstance(st, ast.Return):
+        if st.value is not None and not (isinstance(st.value, ast.Constant) and st.value.value is None):
+            raise Unrecognised("return with a value")
+        return ret
     if isinstance(st, ast.Assign) and len(st.targets) == 1 and isinstance(st.targets[0], ast.Name):
-        env = dict(env)
-        env[st.targets[0].id] = tr_path(st.value, env, fname)
-        return tr_block(rest, cont, env, fname)
+        return go({**env, st.targets[0].id: ev(st.value, env, ctx)})
+    if isinstance(st, ast.AnnAssign) and isinstance(st.target, ast.Name) and st.value is not None:
+        return go({**env, st.target.id: ev(st.value, env, ctx)})
     if isinstance(st, ast.If):
-        k = tr_block(rest, cont, env, fname)
-        c = tr_cond(st.test, env, fname)
-        return f"(.ite {c}\n  {tr_block(st.body, k, env, fname)}\n  {tr_block(st.orelse, k, env, fname)})"
+        k = go()
+        c = want("cond", st.test, env, ctx)
+        return (f"(.ite {c}\n  {tr_block(st.body, k, env, ctx, ret, depth)}\n  "
+                f"{tr_block(st.orelse, k, env, ctx, ret, depth)})")
     if isinstance(st, ast.With) and len(st.items) == 1:
         it = st.items[0]
         call = it.context_expr
         if (isinstance(call, ast.Call) and dotted(call.func) == "open" and len(call.args) >= 2
                 and isinstance(call.args[1], ast.Constant) and call.args[1].value == "w"
                 and isinstance(it.optional_vars, ast.Name) and is_dump_body(st.body, it.optional_vars.id)):
-            p = tr_path(call.args[0], env, fname)
-            k = tr_block(rest, cont, env, fname)
-            return f"(.seq (.openTrunc {p}) (.seq (.writeChunk {p}) (.seq (.finishWrite {p}) {k})))"
+            p = want("path", call.args[0], env, ctx)
+            return f"(.seq (.openTrunc {p}) (.seq (.writeChunk {p}) (.seq (.finishWrite {p}) {go()})))"
         raise Unrecognised("with statement " + ast.unparse(st)[:80])
     if isinstance(st, ast.Expr) and isinstance(st.value, ast.Call):
-        f = dotted(st.value.func)
+        f = dotted(st.value.func) or ""
         a = st.value.args
-        k = lambda: tr_block(rest, cont, env, fname)
         if f in ("os.rename", "os.replace") and len(a) == 2:
-            return f"(.seq (.rename {tr_path(a[0], env, fname)} {tr_path(a[1], env, fname)}) {k()})"
+            return f"(.seq (.rename {want('path', a[0], env, ctx)} {want('path', a[1], env, ctx)}) {go()})"
         if f in ("os.remove", "os.unlink") and len(a) == 1:
-            return f"(.seq (.remove {tr_path(a[0], env, fname)}) {k()})"
+            return f"(.seq (.remove {want('path', a[0], env, ctx)}) {go()})"
+        if f.startswith(NOOP_CALL_PREFIXES):
+            return go()
+        if f in ctx.funcs and depth < MAX_INLINE_DEPTH:  # a helper defined in the same module: inline its body
+            fn = ctx.funcs[f]
+            k = go()
+            return tr_block(fn.body, k, bind_call(fn, st.value, env, ctx), ctx, k, depth + 1)
     raise Unrecognised("statement " + ast.unparse(st)[:80])
 
 
@@ -143,7 +219,8 @@ def translate(repo: Path):
             d = defaults.get(flag)
             if not (isinstance(d, ast.Constant) and d.value is want):
                 raise Unrecognised(f"default of {flag} is not {want}")
-        prog = tr_block(fn.body, ".done", {}, args[0])
+        env = {args[0]: ("path", ".name"), "safely": ("cond", ".safely"), "overwrite": ("cond", ".overwrite")}
+        prog = tr_block(fn.body, ".done", env, Ctx(tree), ".done")
         ok = True
     except (Unrecognised, StopIteration, SyntaxError, OSError) as e:
         ok = False
